@@ -1,7 +1,11 @@
-import I18n.Model.Po
-/-! # C10 — PO text decodes to exactly the strings gettext would see -/
+import I18n.Lemmas.PoUnescape
+import I18n.Lemmas.PoFlags
+/-! # C10 — PO text decodes to exactly the strings gettext would see
+
+Model: `I18n.Po` (Model/Po.lean) — `polib.pofile` after `lib.polib4us.install_patches()`.
+Spec: `I18n.Spec.PoSpelling` — spellings as data (`Choice`, `FlagPiece`, …).  -/
 namespace I18n.Props.C10
-open I18n I18n.Po
+open I18n I18n.Po I18n.Spec.PoSpelling
 open I18n.Generated.PolibFsm (St Sym Handler)
 
 /-- the hand-written scanners stand for these regex texts (a change of text breaks this pin; the check then goes
@@ -15,8 +19,112 @@ theorem regex_pins :
     Generated.PolibFsm.atypicalComment = "#[^ .:,|~]" ∧ Generated.PolibFsm.atypicalCommentMethod = "match" ∧
     Generated.PolibFsm.detectPattern = ["\"?Content-Type:.+? charset=([\\w_\\-:\\.]+)"] ∧
     Generated.PolibFsm.quoteRes = ["([^\\\\]|^)\""] ∧
-    Generated.PolibFsm.defaultEncoding = "ASCII" ∧
-    True := by
-  refine ⟨rfl, rfl, rfl, rfl, rfl, rfl, rfl, rfl, rfl, rfl, rfl, trivial⟩
+    Generated.PolibFsm.defaultEncoding = "ASCII" := by
+  refine ⟨rfl, rfl, rfl, rfl, rfl, rfl, rfl, rfl, rfl, rfl, rfl⟩
 
+/-! ## escapes -/
+
+/-- **unescape_spelling.**  For every string `t` and every per-character spelling choice `p` of it (raw, one of the nine
+    letter escapes, or the bytes of its encoding in the file's charset as octal escapes of 1–3 digits ≤ `\377` / hex escapes
+    of 1–2 digits of either case), `polib_unescape` gives back `t` — for every codec environment in which the charset is
+    ASCII-transparent and decodes what it encodes.  Excluded spellings: `okSeq` (a short octal escape followed by an octal
+    digit, a hex escape followed by a hex digit). -/
+theorem unescape_spelling (env : Env) (enc : Bytes) (E : Codec) (hE : CodecOk env enc E) (p : List Choice)
+    (hv : ∀ x ∈ p, x.Valid E) (hs : okSeq p = true) :
+    unescape env enc (render p) = some (text p) :=
+  Lemmas.PoUnescape.unescape_spelling hE p hv hs
+
+/-- the excluded spellings are excluded for a reason: `\x4` followed by the letter `1` reads as `\x41` -/
+theorem unescape_swallow_witness (env : Env) (enc : Bytes) :
+    unescape env enc ['\\', 'x', '4', '1'] = some ['A'] ∧ unescape env enc ['\\', '1', '0', '1'] = some ['A'] := by
+  constructor <;> rfl
+
+/-- fix 9de4551: `\8` and `\9` are not escapes, and octal escapes above `\377` keep their low 8 bits -/
+theorem unescape_octal_fix (env : Env) (enc : Bytes) :
+    unescape env enc ['a', '\\', '8'] = some ['a', '\\', '8'] ∧ unescape env enc ['\\', '4', '0', '1'] = some ['\x01'] := by
+  constructor <;> rfl
+
+/-- non-vacuity: an environment satisfying `CodecOk` (ASCII), and a spelling that mixes every form -/
+def asciiCodec : Codec := ⟨fun c => if c.toNat < 128 then some [UInt8.ofNat c.toNat] else none⟩
+
+def asciiEnv : Env where
+  asciiCompatible _ := true
+  codecExists _ := true
+  decode _ bs := match decodeAscii bs with | some t => .text t | none => .ude
+  isSpace := pyIsSpace
+  isDigit := pyIsDigit
+  decimal := pyDecimal
+
+theorem asciiCodecOk (enc : Bytes) : CodecOk asciiEnv enc asciiCodec where
+  ascii c hc := by simp [asciiCodec, hc]
+  nonascii c bs hc h := by simp [asciiCodec] at h; omega
+  decode pairs hp := by
+    have hascii : ∀ c : Char, c.toNat < 128 → asciiCodec.encode c = some [UInt8.ofNat c.toNat] := by
+      intro c hc; simp [asciiCodec, hc]
+    have hnon : ∀ (c : Char) (bs : Bytes), 128 ≤ c.toNat → asciiCodec.encode c = some bs → ∃ b ∈ bs, 128 ≤ b.toNat := by
+      intro c bs hc h; simp [asciiCodec] at h; omega
+    have hall : ∀ b ∈ (pairs.map (·.2)).flatten, b.toNat < 128 := by
+      intro b hb
+      simp only [List.mem_flatten, List.mem_map] at hb
+      obtain ⟨bs, ⟨q, hq, rfl⟩, hb⟩ := hb
+      have := hp q hq
+      simp only [asciiCodec] at this
+      split at this
+      · rename_i hlt
+        simp at this; rw [← this] at hb; simp at hb; subst hb
+        simp; omega
+      · simp at this
+    have := Lemmas.PoUnescape.ascii_pairs hascii hnon pairs hp hall
+    simp only [asciiEnv, Lemmas.PoUnescape.decodeAscii_eq, if_pos hall, this]
+
+def sampleSpelling : List Choice :=
+  [.raw 'a', .simple 0, .bytes 'A' [.hex2 ⟨4, false⟩ ⟨1, false⟩], .bytes 'B' [.oct3 1 0 2], .bytes '\x07' [.oct1 7], .raw 'x',
+   .bytes '\n' [.hex1 ⟨10, true⟩], .simple 8, .raw ' ']
+
+example : render sampleSpelling = "a\\n\\x41\\102\\7x\\xA\\\" ".toList := by decide
+example : text sampleSpelling = "a\nAB\x07x\n\" ".toList := by decide
+example : unescape asciiEnv asciiName (render sampleSpelling) = some (text sampleSpelling) :=
+  unescape_spelling asciiEnv asciiName asciiCodec (asciiCodecOk _) sampleSpelling
+    (by intro x hx; simp [sampleSpelling] at hx; rcases hx with rfl | rfl | rfl | rfl | rfl | rfl | rfl | rfl | rfl <;>
+          simp [Choice.Valid, rawOk, asciiCodec, EscForm.value] <;> decide)
+    (by decide)
+
+/-! ## flags -/
+
+/-- the generated strip set of the patched `flags` setter is white space for the interpreter -/
+theorem flag_strip_set_is_space : ∀ c : Char, isFlagSpace c = true → pyIsSpace c = true := by
+  have h : ∀ n ∈ Generated.PolibFsm.flagStripSet, inRanges Generated.PolibFsm.spaceRanges n = true := by decide
+  intro c hc
+  exact h c.toNat (by simpa [isFlagSpace] using hc)
+
+/-- **flags_split.**  A flags line `#,` + one white-space character + comma-separated items with any white space around
+    them adds exactly the items — trimmed, in order, duplicates and empty items kept — to the entry's flags
+    (the patched setter re-splits the whole list and changes nothing). -/
+theorem flags_split (env : Env) (enc : Bytes) (hcomma : env.isSpace ',' = false)
+    (hsub : ∀ c, isFlagSpace c = true → env.isSpace c = true)
+    (ps : List FlagPiece) (hne : ps ≠ []) (hv : ∀ x ∈ ps, x.Valid env.isSpace)
+    (ws : Char) (n : Nat) (s : PState) (hold : ∀ f ∈ (flushIfDone n s).cur.flags, FlagItem env.isSpace f) :
+    handle env enc n .fl ('#' :: ',' :: ws :: flagBody ps) s =
+      some ({ flushIfDone n s with cur := { (flushIfDone n s).cur with flags := (flushIfDone n s).cur.flags ++ ps.map FlagPiece.item } }, true) := by
+  have h1 := Lemmas.PoFlags.split_strip hcomma ps hne hv
+  have h2 := Lemmas.PoFlags.setFlags_id (sp := env.isSpace) hsub ((flushIfDone n s).cur.flags ++ ps.map FlagPiece.item) (by
+    intro f hf
+    simp only [List.mem_append, List.mem_map] at hf
+    rcases hf with hf | ⟨x, hx, rfl⟩
+    · exact hold f hf
+    · exact (hv x hx).1)
+  simp only [handle, List.drop_succ_cons, List.drop_zero, h1, h2]
+
+/-- `translated()` as patched: not obsolete, not fuzzy, and `msgstr` or some plural form non-empty -/
+theorem translated_iff (e : Entry) :
+    translated e = true ↔
+      e.obsolete = false ∧ ['f', 'u', 'z', 'z', 'y'] ∉ e.flags ∧
+        ((∃ c t, e.msgstr = some (c :: t)) ∨ ∃ kv ∈ e.msgstrPlural, kv.2 ≠ []) := by
+  unfold translated
+  cases ho : e.obsolete <;> simp
+  cases hf : e.flags.contains ['f', 'u', 'z', 'z', 'y'] <;> simp_all
+  · cases hm : e.msgstr with
+    | none => simp
+    | some v => cases v <;> simp
+  
 end I18n.Props.C10
